@@ -39,6 +39,7 @@ type Plan struct {
 	CtlDelayMin  time.Duration
 	CtlDelayMax  time.Duration
 	CtlReorder   bool // control messages (types 1-3) are not kept FIFO
+	Type2Reorder bool // only service advertisements (type 2) are not kept FIFO; routing updates stay in order
 	Type2MinWait time.Duration
 }
 
@@ -401,6 +402,9 @@ func (s *Session) Send(b []byte) error {
 		drop, dup, dmin, dmax, reorder = plan.DataDrop, plan.DataDup, plan.DataDelayMin, plan.DataDelayMax, plan.DataReorder
 	} else {
 		drop, dup, dmin, dmax, reorder = plan.CtlDrop, plan.CtlDup, plan.CtlDelayMin, plan.CtlDelayMax, plan.CtlReorder
+		if len(b) > 0 && b[0] == 2 && plan.Type2Reorder {
+			reorder = true
+		}
 		if len(b) > 0 && b[0] == 2 && dmin < plan.Type2MinWait {
 			dmin = plan.Type2MinWait
 			if dmax < dmin {
